@@ -35,11 +35,11 @@ def eff(*names, touching=None):
 PROPS = {
     "C01": dict(profiles=["money", "mixed", "modsvc"], monitors=["escrowBacked", "conservation", "settlement", "batchDebit"],
                 state=any_of(acct_lines({ESCROW}), kinds("RQ", "AI", "EF")), effects=eff("transfer", touching={ESCROW}), errnames=False),
-    "C02": dict(profiles=["money", "mixed", "lifecycle"], monitors=["settlement", "batchDebit", "conservation", "escrowBacked", "respondLaw"],
+    "C02": dict(profiles=["money", "mixed", "lifecycle", "genesis"], monitors=["settlement", "batchDebit", "conservation", "escrowBacked", "respondLaw"],
                 state=kinds("A", "RQ", "AI", "EF", "OE", "RS"), effects=eff("transfer", "slash"), errnames=False),
     "C03": dict(profiles=["bindings", "mixed", "modsvc", "genesis"], monitors=["depositBacked", "depositLaw", "supplyLaw", "conservation"],
                 state=kinds("A", "B", "S"), effects=eff("transfer", "slash"), errnames=True),
-    "C04": dict(profiles=["bindings", "money"], monitors=["slashLaw", "supplyLaw", "depositBacked"],
+    "C04": dict(profiles=["bindings", "money", "genesis"], monitors=["slashLaw", "supplyLaw", "depositBacked"],
                 state=kinds("B", "S"), effects=eff("slash"), errnames=False),
     "C05": dict(profiles=["authority", "mixed", "modsvc"], monitors=["authority", "conservation"],
                 state=kinds("A"), effects=eff("transfer"), errnames=True),
